@@ -228,7 +228,7 @@ func genCase(t *rapid.T) Case {
 }
 
 func TestSchedules(t *testing.T) {
-	pbt.Check(t, pbt.Cfg{Name: "schedules", Quick: 400, Thorough: 12000}, func(r *pbt.Run) {
+	pbt.Check(t, pbt.Cfg{Name: "schedules", Quick: 400, Thorough: 4000}, func(r *pbt.Run) {
 		c := genCase(r.T)
 		r.Case(c)
 		s, o, err := run(c)
